@@ -1222,8 +1222,8 @@ def mutants():
           "        # Reprocess the current tag if the tr end tag was not ignored\n        # XXX how are we sure it's always ignored in the innerHTML case?\n        if not ignoreEndTag:\n            return token",
           "        # Reprocess the current tag if the tr end tag was not ignored\n        return token", "C03.9"),
         T("intable-table-unguarded", "html5parser.py",
-          "        self.parser.phase.processEndTag(impliedTagToken(\"table\"))\n        if not self.parser.innerHTML:\n            return token",
-          "        self.parser.phase.processEndTag(impliedTagToken(\"table\"))\n        return token", "C03.9"),
+          "        self.parser.phase.processEndTag(impliedTagToken(\"table\"))\n        if not ignoreEndTag:\n            return token\n\n    def startTagStyleScript",
+          "        self.parser.phase.processEndTag(impliedTagToken(\"table\"))\n        return token\n\n    def startTagStyleScript", "C03.9"),
         T("mode-tr-to-cell", "html5parser.py",
           "        self.tree.insertElement(token)\n        self.parser.phase = self.parser.phases[\"inRow\"]\n",
           "        self.tree.insertElement(token)\n        self.parser.phase = self.parser.phases[\"inCell\"]\n", "C03.12"),
